@@ -6,7 +6,7 @@ internal/plugin/transport.go `serviceGenerator.Generate`).
 Everything that is to be written is accumulated in one map (relative path →
 contents) *before* the first write: all modules are generated, then all plugins are
 asked, their answers are checked for ".." and merged (conflict = the same key
-twice), and only then does the write loop run over `filepath.Join(outDir, rel)`.
+twice, keys compared in the form in which they are written: `normKey`), and only then does the write loop run over `filepath.Join(outDir, rel)`.
 
 Maps are association lists with unique keys; the iteration order of the Go maps
 only influences which of several errors is reported first, never ok-vs-error.
@@ -29,7 +29,14 @@ abbrev Files := List (Str × Content)
 
 def hasKey (fs : Files) (p : Str) : Bool := fs.any fun x => x.1 == p
 
-/-- `addFile`: error (none) if the key is already present. -/
+/-- the form in which a relative output path is compared: as it will be written below the
+output directory (`filepath.Join("/", p)` without the leading separator), so that "x.go",
+"./x.go", "/x.go" and "a/../x.go" are one key. -/
+def normKey (p : Str) : Str := (join2 ['/'] p).drop 1
+
+def normFiles (fs : Files) : Files := fs.map fun x => (normKey x.1, x.2)
+
+/-- `addFile` on an already normalised key: error (none) if the key is present. -/
 def addFile (fs : Files) (p : Str) (c : Content) : Option Files :=
   if hasKey fs p then none else some (fs ++ [(p, c)])
 
@@ -64,7 +71,7 @@ def genModules (root : Str) : Files → List ModIn → Except PlanErr Files
   | acc, m :: ms =>
     match m.result, modulePath root m.thriftPath with
     | some c, some p =>
-      match addFile acc p c with
+      match addFile acc (normKey p) c with
       | some acc' => genModules root acc' ms
       | none => .error .coreConflict
     | _, _ => .error .moduleFailed
@@ -94,12 +101,14 @@ def allOk : List (Except PlanErr Files) → Except PlanErr (List Files)
 def pickOrder {α} (xs : List α) (ord : List Nat) : List α := ord.filterMap fun i => xs[i]?
 
 /-- `MultiServiceGenerator.Generate`: all plugins answer (concurrently), each answer is
-checked, the good ones are merged in completion order `ord`. Any failure is an error. -/
+checked, the good ones are merged in completion order `ord`, compared by normalised key (a
+plugin that returns the same file twice under two spellings conflicts with itself). Any
+failure is an error. -/
 def runPlugins (plugs : List (Option Files)) (ord : List Nat) : Except PlanErr Files :=
   match allOk (plugs.map checkPlugin) with
   | .error e => .error e
   | .ok fs =>
-    match mergePlugins [] (pickOrder fs ord) with
+    match mergePlugins [] (pickOrder (fs.map normFiles) ord) with
     | none => .error .pluginConflict
     | some m => .ok m
 
